@@ -534,8 +534,73 @@ func c20AccountedAppend(c *eng.Ctx, f *ssa.Function, pv *types.Var, w eng.FieldS
 				break
 			}
 		}
+		// a match, once found, stays found: the loop-carried flag may take a comparison's outcome only on
+		// paths on which it was still false (seed C20-b: `found = found || cmp` -> `found = cmp` compares the
+		// new share with the LAST recorded one only)
+		for _, l := range loops {
+			for _, in := range l.head.Instrs {
+				flag, ok := in.(*ssa.Phi)
+				if !ok {
+					continue
+				}
+				if bt, ok := flag.Type().Underlying().(*types.Basic); !ok || bt.Kind() != types.Bool {
+					continue
+				}
+				for i, e := range flag.Edges {
+					if !l.set[l.head.Preds[i]] {
+						continue // entry edge
+					}
+					ssite := "a match stays found across the loop over " + P
+					if h := c20StickyFlag(f, l, flag, e, l.head.Preds[i], atom, 0); h != "" {
+						c.Violation(f, ssite, flag.Pos(), "the match flag is overwritten by each comparison ("+h+"): only the last recorded share is compared with the new one, an earlier duplicate is accepted and counts towards the threshold", nil)
+						okAll = false
+					} else {
+						c.OK(f, ssite, flag.Pos(), "the flag takes a comparison's outcome only while it is still false")
+					}
+				}
+			}
+		}
 		if okAll {
 			c.OK(f, dsite, st.Pos(), "every recorded share is compared with the new one and a match never reaches the append")
 		}
+	}
+}
+
+// c20StickyFlag checks the value v carried into the loop header (from block
+// pred) for the boolean match flag `flag`: it must be `true`, the flag itself,
+// or a comparison outcome that is only reachable while the flag was false.
+// Returns "" if so, else a description of the offending value.
+func c20StickyFlag(f *ssa.Function, l c20Loop, flag *ssa.Phi, v ssa.Value, pred *ssa.BasicBlock, atom func(ssa.Value) bool, d int) string {
+	if d > 6 {
+		return "value too deep: " + eng.Expr(v)
+	}
+	if v == ssa.Value(flag) {
+		return ""
+	}
+	if cst, ok := v.(*ssa.Const); ok {
+		if eng.Expr(cst) == "true" {
+			return ""
+		}
+		return "reset to " + eng.Expr(cst)
+	}
+	if phi, ok := v.(*ssa.Phi); ok && phi != flag {
+		for i, e := range phi.Edges {
+			if h := c20StickyFlag(f, l, flag, e, phi.Block().Preds[i], atom, d+1); h != "" {
+				return h
+			}
+		}
+		return ""
+	}
+	{
+		// a computed outcome: the block it arrives from must lie behind "flag == false"
+		falseEdges := eng.BoolEdges(flag, false)
+		if len(falseEdges) == 0 {
+			return eng.Expr(v) + " assigned without testing the flag"
+		}
+		target := func(in ssa.Instruction) bool { return in.Block() == pred }
+		if eng.Reach(eng.Query{Fn: f, StartEdges: []eng.Edge{l.body}, Blocked: falseEdges, Target: target}) != nil {
+			return eng.Expr(v) + " assigned on a path on which the flag may already be true"
+		}
+		return ""
 	}
 }
